@@ -146,6 +146,17 @@ class _JobBehaviour:
         rec.ev('enter', who)
         try:
             d = sp['d']
+            zap = sp.get('zap')
+            if zap:
+                # enumerated families only: after zap['at'] this job cancels the task of a
+                # sibling that is still waiting for a window slot (its body never entered)
+                await asyncio.sleep(zap['at'])
+                victim = rec.objs.get(zap['who'])
+                task = getattr(victim, '_task', None)
+                if task is not None and not task.done() and not any(
+                        e['kind'] == 'enter' and e['who'] == zap['who'] for e in rec.events):
+                    rec.ev('zap', who, victim=zap['who'])
+                    task.cancel()
             if d == 'never':
                 await rec.loop.create_future()
             elif d == 'tick':
